@@ -1,5 +1,6 @@
 import Driver.Proto
 import PolyVerif.Model.Splat
+import PolyVerif.Model.Spz
 
 namespace Driver.C15
 open PolyVerif PolyVerif.Splat
@@ -89,6 +90,74 @@ def stepOk (E : Env Float) (s t : Splat Float) : Bool :=
   && fle ((sig t.op - alphaStored E s.op).abs) (1.0 / 255.0 + eps)
   && rotOk s.r0 t.r0 && rotOk s.r1 t.r1 && rotOk s.r2 t.r2 && rotOk s.r3 t.r3
 
+
+/-! ### SPZ -/
+
+def spzEnv : Spz.Env Float :=
+  { ofInt := Float.ofInt, pow2 := fun k => Float.scaleB 1.0 k, inf := 1.0 / 0.0, nan := 0.0 / 0.0 }
+
+def v3s (l : List (V3 Float)) : List Float := l.flatMap fun v => [v.x, v.y, v.z]
+def v4s (l : List (V4 Float)) : List Float := l.flatMap fun v => [v.x, v.y, v.z, v.w]
+
+def cloudFloats (c : Spz.Cloud Float) : List Float :=
+  v3s c.positions ++ c.alphas ++ v3s c.colors ++ v3s c.scales ++ v4s c.rotations ++ c.sh.flatMap v3s
+
+def spzReadAnswer (bs : List UInt8) : String :=
+  match Spz.read spzEnv bs with
+  | .error _ => "err"
+  | .ok c => s!"ok {c.positions.length} {c.sh.length} " ++ fsHexC (cloudFloats c)
+
+def splitAt? (n : Nat) (l : List UInt8) : Option (List UInt8 × List UInt8) :=
+  if n ≤ l.length then some (l.take n, l.drop n) else none
+
+/-- one packed record: pos | alpha | color | scale | rot | sh -/
+def packed? (h : Spz.Header) (bs : List UInt8) : Option Spz.Packed := do
+  let (pos, r) ← splitAt? (Spz.posBytes h) bs
+  let (al, r) ← splitAt? 1 r
+  let (col, r) ← splitAt? 3 r
+  let (scl, r) ← splitAt? 3 r
+  let (rot, r) ← splitAt? 3 r
+  let (sh, r) ← splitAt? (3 * Spz.shDim h.shDegree) r
+  if !r.isEmpty then none
+  pure ⟨pos, al.getD 0 0, col, scl, rot, sh⟩
+
+def bitsEq (a b : List Float) : Bool :=
+  a.length == b.length && (a.zip b).all fun (x, y) => (x.isNaN && y.isNaN) || x.toBits == y.toBits
+
+def pointFloats (p : Spz.Point Float) : List Float :=
+  [p.pos.x, p.pos.y, p.pos.z, p.alpha, p.color.x, p.color.y, p.color.z, p.scale.x, p.scale.y, p.scale.z,
+   p.rot.x, p.rot.y, p.rot.z, p.rot.w] ++ v3s p.sh
+
+/-- the statement of `spz_decode_refEncode` on the implementation's output: splat `i` of the cloud is the
+    dequantisation of record `i`; every attribute array has `n` entries and there are `dim` SH arrays.
+    `fs` = the cloud in `cloudFloats` order. -/
+def spzHolds (h : Spz.Header) (recs : List Spz.Packed) (n dim : Nat) (fs : List Float) : Bool :=
+  let N := h.numPoints
+  let D := Spz.shDim h.shDegree
+  n == N && dim == D && recs.length == N && fs.length == N * (14 + 3 * D) &&
+  (List.range N).all fun i =>
+    let at3 := fun (off i : Nat) => (fs.drop (off + 3 * i)).take 3
+    let got := at3 0 i ++ (fs.drop (3 * N + i)).take 1 ++ at3 (4 * N) i ++ at3 (7 * N) i ++
+      (fs.drop (10 * N + 4 * i)).take 4 ++
+      (List.range D).flatMap (fun d => at3 (14 * N + 3 * N * d) i)
+    match recs[i]? with
+    | some r => bitsEq got (pointFloats (Spz.dequant spzEnv h r))
+    | none => false
+
+def handleSpz (op : String) (args : List String) : Option String :=
+  match op, args with
+  | "c15.spz.read", [hex] => (hexBytes? hex).map spzReadAnswer
+  | "c15.holds.spz_dequant", ver :: np :: deg :: fb :: rest => do
+      let h : Spz.Header := ⟨Spz.magicNum, ← ver.toNat?, ← np.toNat?, ← deg.toNat?, ← fb.toNat?, 0, 0⟩
+      let recHex := rest.take h.numPoints
+      let recs ← recHex.mapM fun x => do let b ← hexBytes? x; packed? h b
+      match rest.drop h.numPoints with
+      | "ok" :: n :: dim :: fl => do
+          let fs ← floats? fl
+          pure (boolStr (spzHolds h recs (← n.toNat?) (← dim.toNat?) fs))
+      | _ => pure "false"
+  | _, _ => none
+
 def handle (op : String) (args : List String) : Option String :=
   match op, args with
   | "c15.const.shc0", [] => some (fHex shC0Float)
@@ -123,7 +192,7 @@ def handle (op : String) (args : List String) : Option String :=
           let E := floatEnv tbl
           pure (boolStr (short == "0" && m == n && (cloud.zip got).all (fun (s, t) => stepOk E s t)))
       | _ => none
-  | _, _ => none
+  | _, _ => handleSpz op args
 
 end Driver.C15
 
